@@ -1208,6 +1208,27 @@ func (e *Env) call(x *ast.CallExpr) *Val {
 				}
 				if n, ok := t.(*types.Named); ok && n.Obj().Pkg() != nil {
 					key := "(" + ptr + n.Obj().Pkg().Name() + "." + n.Obj().Name() + ")." + sel.Sel.Name
+					if _, isIface := n.Underlying().(*types.Interface); isIface && ptr == "" {
+						// a method of an interface whose contract is declared pure: the symbol the code gets
+						ik := n.Obj().Pkg().Name() + "." + n.Obj().Name() + "." + sel.Sel.Name
+						if ict := fx.eng.specs.Contracts["iface:"+ik]; ict != nil && ict.Pure {
+							if m := types.NewMethodSet(recv.Ty).Lookup(n.Obj().Pkg(), sel.Sel.Name); m != nil {
+								args := []*Val{recv}
+								for i := range x.Args {
+									args = append(args, argv(i))
+								}
+								res := m.Type().(*types.Signature).Results()
+								var rt types.Type = res
+								if res.Len() == 1 {
+									rt = res.At(0).Type()
+								}
+								fx.pureInline = true
+								v := fx.pureCall(e.st, "pc$"+sanitize(ik), args, rt)
+								fx.pureInline = false
+								return v
+							}
+						}
+					}
 					if pureFuncs[key] {
 						if m := types.NewMethodSet(recv.Ty).Lookup(n.Obj().Pkg(), sel.Sel.Name); m != nil {
 							args := []*Val{recv}
@@ -1374,7 +1395,7 @@ func (fx *FuncCtx) unchangedTerm(now, pre *State, except ...string) string {
 	}
 	sort.Strings(names)
 	for _, c := range names {
-		if strings.HasPrefix(c, "G$rd_pos") || strings.HasPrefix(c, "G$it_") || strings.HasPrefix(c, "G$put_") || strings.HasPrefix(c, "G$get_") || strings.HasPrefix(c, "G$br_src") || strings.HasPrefix(c, "RV$") {
+		if strings.HasPrefix(c, "G$rd_pos") || strings.HasPrefix(c, "G$it_") || strings.HasPrefix(c, "G$put_") || strings.HasPrefix(c, "G$get_") || strings.HasPrefix(c, "G$br_src") || strings.HasPrefix(c, "G$hdr_") || strings.HasPrefix(c, "RV$") {
 			continue // stream cursors, iterators, the ghost call log and iteration bookkeeping are not stored state
 		}
 		t := now.Heap[c]
